@@ -1641,6 +1641,7 @@ func (p *process) Forward(
 // internal
 
 func (p *process) run() {
+	lib.VerifPoint("run.enter", p.pid.ID)
 	if atomic.CompareAndSwapInt32(
 		&p.state,
 		int32(gen.ProcessStateSleep),
@@ -1649,6 +1650,7 @@ func (p *process) run() {
 		// already running or terminated
 		return
 	}
+	lib.VerifPoint("run.spawn", p.pid.ID)
 	go func() {
 		if lib.Recover() {
 			defer func() {
@@ -1666,6 +1668,7 @@ func (p *process) run() {
 			}()
 		}
 	next:
+		lib.VerifPoint("run.loop", p.pid.ID)
 		startTime := time.Now().UnixNano()
 		// handle mailbox
 		if err := p.behavior.ProcessRun(); err != nil {
@@ -1678,6 +1681,7 @@ func (p *process) run() {
 				p.log.Error("process terminated abnormally - %s", err)
 			}
 
+			lib.VerifPoint("run.term", p.pid.ID)
 			old := atomic.SwapInt32(&p.state, int32(gen.ProcessStateTerminated))
 			if old == int32(gen.ProcessStateTerminated) {
 				return
@@ -1692,12 +1696,14 @@ func (p *process) run() {
 		p.runningTime = p.runningTime + uint64(time.Now().UnixNano()-startTime)
 
 		// change running state to sleep
+		lib.VerifPoint("run.tosleep", p.pid.ID)
 		if atomic.CompareAndSwapInt32(
 			&p.state,
 			int32(gen.ProcessStateRunning),
 			int32(gen.ProcessStateSleep),
 		) == false {
 			// process has been killed (was in zombee state)
+			lib.VerifPoint("run.killed", p.pid.ID)
 			old := atomic.SwapInt32(&p.state, int32(gen.ProcessStateTerminated))
 			if old == int32(gen.ProcessStateTerminated) {
 				return
@@ -1707,6 +1713,7 @@ func (p *process) run() {
 			return
 		}
 		// check if something left in the inbox and try to handle it
+		lib.VerifPoint("run.recheck", p.pid.ID)
 		if p.mailbox.Main.Item() == nil {
 			if p.mailbox.System.Item() == nil {
 				if p.mailbox.Urgent.Item() == nil {
@@ -1718,6 +1725,7 @@ func (p *process) run() {
 			}
 		}
 		// we got a new messages. try to use this goroutine again
+		lib.VerifPoint("run.reacquire", p.pid.ID)
 		if atomic.CompareAndSwapInt32(
 			&p.state,
 			int32(gen.ProcessStateSleep),
@@ -1766,6 +1774,7 @@ func (p *process) waitResponse(ref gen.Ref, timeout int) (any, error) {
 	var response any
 	var err error
 
+	lib.VerifPoint("wait.enter", p.pid.ID)
 	if swapped := atomic.CompareAndSwapInt32(&p.state, int32(gen.ProcessStateRunning), int32(gen.ProcessStateWaitResponse)); swapped == false {
 		return nil, gen.ErrNotAllowed
 	}
@@ -1800,6 +1809,7 @@ retry:
 		err = r.err
 	}
 
+	lib.VerifPoint("wait.leave", p.pid.ID)
 	if swapped := atomic.CompareAndSwapInt32(&p.state, int32(gen.ProcessStateWaitResponse), int32(gen.ProcessStateRunning)); swapped == false {
 		return nil, gen.ErrProcessTerminated
 	}
